@@ -136,3 +136,54 @@ Proof. reflexivity. Qed.
 Theorem uses_without_when_keeps_conditions_partial : forall s, set_when None s = s.
 Proof. reflexivity. Qed.
 Print Assumptions uses_without_when_keeps_conditions_partial.
+
+(** ** Every expand output satisfies [ewf_list] (round 2, Schemac/Ewf.v).
+    No well-formedness of the SOURCE is needed: addDataDefinition's conflict check and the
+    implied-case wrapping establish the invariant for every statement list, lexical context and
+    fuel.  The only hypothesis is that the accumulator the call starts from is well formed
+    ([[]] at every entry point) — and not even that for the members the call ADDS. *)
+From YV Require Import Schemac.Ewf.
+
+Theorem expand_ewf : forall fuel cx acc ss out,
+  ewf_list false [] acc = true -> expand fuel cx acc ss = Ok out -> ewf_list false [] out = true.
+Proof. exact expand_ewf_proof. Qed.
+Print Assumptions expand_ewf.
+
+Theorem expand_added_ewf : forall fuel cx acc ss X,
+  expand fuel cx acc ss = Ok (acc ++ X) -> ewf_list false (names acc) X = true.
+Proof. exact expand_added_ewf_proof. Qed.
+Print Assumptions expand_added_ewf.
+
+(** the general (relative) form: the first [n] members of the accumulator are not assumed well
+    formed; under a choice ([a = true]) the statements are cases (what [wrap_case] delivers) *)
+Theorem expand_ewf_relative : forall fuel cx ss acc n a out,
+  (negb a || forallb is_case_stmt ss) = true ->
+  ewf_from n a [] acc = true -> expand fuel cx acc ss = Ok out -> ewf_from n a [] out = true.
+Proof. exact expand_rec_ewf. Qed.
+Print Assumptions expand_ewf_relative.
+
+Theorem expand_modset_ewf : forall fuel ms t,
+  expand_modset fuel ms = Ok t -> ewf_list false [] t = true.
+Proof. exact expand_modset_ewf_proof. Qed.
+Print Assumptions expand_modset_ewf.
+
+(** uses_inline restated without the well-formedness side condition *)
+Theorem uses_inline_unconditional : forall f cx acc pfx g w refs augs rest X,
+  expand (S f) cx acc [SUses pfx g w refs augs] = Ok (acc ++ X) ->
+  ldepth X <= f ->
+  expand (S f) cx acc (SUses pfx g w refs augs :: rest) =
+  expand (S f) cx acc (map embed X ++ rest).
+Proof. exact uses_inline_unconditional_proof. Qed.
+Print Assumptions uses_inline_unconditional.
+
+Example uses_inline_unconditional_applies :
+  expand 5 ex_cx [] [ex_uses] = Ok ([] ++ ex_X) /\ ldepth ex_X <= 4 /\
+  expand 5 ex_cx [] (map embed ex_X ++ [SNode KLeaf [x7a] no_props [] [] []]) =
+  Ok (ex_X ++ [ENode KLeaf [x7a] no_props [] []]).
+Proof. repeat split; try (vm_compute; reflexivity). vm_compute. auto with arith. Qed.
+
+Example expand_ewf_applies :
+  ewf_list false [] [ENode KLeaf [x7a] no_props [] []] = true /\
+  expand 5 ex_cx [ENode KLeaf [x7a] no_props [] []] [ex_uses] =
+  Ok ([ENode KLeaf [x7a] no_props [] []] ++ ex_X).
+Proof. split; vm_compute; reflexivity. Qed.
